@@ -234,6 +234,33 @@ def one_history(rep, spec, index, key, tmp, base_builtins):
     st, d = run_op(w, ops[k], tmp)
     rep.require("repeating a call later in the history gives the same bits", (st, repr(d)) == results[k] or st == "slow" or results[k][0] == "slow", dict(case, call=k, op=ops[k]),
                 {"first": results[k][1][:300], "again": repr(d)[:300]})
+    # a worn object against a brand-new one in the same interpreter: after an endurance phase (one shared Pervaporation
+    # object doing > 320000 driving-force evaluations - well over 100000 solver iterations - in total; 4 of the 16 shards) the same calls must give the same bits on both
+    if index == 0 and spec["shard"] % 4 == 0:
+        from pyvaporation.pervaporation import Pervaporation
+
+        start = guards.S.total_evals
+        endurance_op = {"op": "ideal_noniso", "c": 0, "cond": 1, "steps": 60, "dt": 1e-3, "n": 0, "m": 0, "idx": 0, "toff": 0.0, "model": "NRTL"}
+        rounds = 0
+        while guards.S.total_evals - start < 320000 and rounds < 12000:
+            st_e, _ = run_op(w, endurance_op, tmp)
+            rounds += 1
+            if st_e != "ok" and rounds > 3 and guards.S.total_evals - start < 50 * rounds:
+                break
+        rep.count("endurance_rounds", rounds)
+        rep.count("endurance_evaluations", guards.S.total_evals - start)
+        probe = [o for o in ops if o["op"] in ("flux", "ideal_iso", "ideal_noniso", "ideal_curve", "separation_factor", "permeate_composition")][:3] or [endurance_op]
+        for o in probe:
+            worn = run_op(w, o, tmp)
+            pv_saved = w.pv
+            w.pv = Pervaporation(w.membrane, w.mix)
+            try:
+                fresh_obj = run_op(w, o, tmp)
+            finally:
+                w.pv = pv_saved
+            if "slow" not in (worn[0], fresh_obj[0]):
+                rep.require("a long-used Pervaporation object answers like a brand-new one (bitwise)", (worn[0], repr(worn[1])) == (fresh_obj[0], repr(fresh_obj[1])),
+                            dict(case, op=o, endurance_rounds=rounds), {"worn": [worn[0], repr(worn[1])[:200]], "fresh_object": [fresh_obj[0], repr(fresh_obj[1])[:200]]})
     # every call against a fresh interpreter
     for k, o in enumerate(ops):
         if results[k][0] == "slow":
